@@ -461,13 +461,14 @@ theorem mailbox_close_eq (ctx : Ctx) (side : String) (mood : Option String) (t :
 
 /-- the translated methods are there, under these names -/
 theorem translated_methods : GenSrv.table.map (·.1) =
-    ["Mailbox.open", "Mailbox._touch", "Mailbox._add_message", "Mailbox.close",
+    ["Mailbox.open", "Mailbox._touch", "Mailbox._add_message", "Mailbox.add_message", "Mailbox.close",
      "AppNamespace._summarize_nameplate_and_store", "AppNamespace._summarize_mailbox_and_store", "AppNamespace._add_mailbox", "AppNamespace.open_mailbox",
-     "AppNamespace.claim_nameplate", "AppNamespace.release_nameplate"] := by rfl
+     "AppNamespace.claim_nameplate", "AppNamespace.release_nameplate", "AppNamespace.allocate_nameplate"] := by rfl
 
-/-- what the translated bodies call: translated methods, or the two summary functions (translate_summ.py, Tie/SrvSumm.lean) -/
+/-- what the translated bodies call: translated methods, the two summary functions (translate_summ.py, Tie/SrvSumm.lean), or the two primitives of Tie/SrvTop.lean -/
 theorem calls_resolved : (GenSrv.table.flatMap (fun m => XS.callsL m.2.body)).all
     (fun c => c ∈ GenSrv.table.map (·.1) ∨ c = "AppNamespace._summarize_nameplate_usage"
-      ∨ c = "AppNamespace._summarize_mailbox") = true := by decide
+      ∨ c = "AppNamespace._summarize_mailbox" ∨ c = "AppNamespace._find_available_nameplate_id"
+      ∨ c = "Mailbox.broadcast_message") = true := by decide
 
 end Wormhole.PySrv
